@@ -74,23 +74,27 @@ def run(ck):
         allp.append(tp)
     hp = ck.path("hist.ndjson")
     digs = []
-    for k in range(2):       # two fresh processes: their digests must agree as well
-        h = ck.drive("conc", "history", "-out", hp if k == 0 else ck.path("hist2.ndjson"), "-seed", ck.seed, "-tasks", 1000 if thorough else 300)
-        digs.append(h["digest_of_all"])
+    for k, order in enumerate(("fwd", "rev")):       # two fresh processes, the second starts with the tasks in reversed order
+        dp = ck.path("digests-%d.json" % k)
+        h = ck.drive("conc", "history", "-out", hp if k == 0 else ck.path("hist2.ndjson"), "-seed", ck.seed, "-tasks", 1000 if thorough else 300,
+                     "-order", order, "-digests", dp)
+        digs.append(json.load(open(dp)))
         ck.cov["evaluations"] += h["executions"]
+    across = [i for i in range(len(digs[0])) if digs[0][i] != digs[1][i]]
     with open(traces, "w") as out:
         tid = 0
-        for tp in allp + [hp]:
+        for tp in allp + [hp, ck.path("hist2.ndjson")]:
             for line in open(tp):
                 e = json.loads(line)
                 if e["ev"] == "Open":
                     tid += 1
                 e["t"] = tid
-                out.write(json.dumps(e) + "\n")
+                out.write(json.dumps(e, separators=(",", ":")) + "\n")
         tid += 1
-        out.write(json.dumps({"t": tid, "i": 0, "ev": "Open", "out": "ret", "mode": "verdicts"}) + "\n")
-        out.write(json.dumps({"t": tid, "i": 1, "ev": "Race", "out": "ret", "races": races}) + "\n")
-        out.write(json.dumps({"t": tid, "i": 2, "ev": "History", "out": "ret", "id": -1, "kind": "across-processes", "same": digs[0] == digs[1]}) + "\n")
+        dumps = lambda o: json.dumps(o, separators=(",", ":"))
+        out.write(dumps({"t": tid, "i": 0, "ev": "Open", "out": "ret", "mode": "verdicts"}) + "\n")
+        out.write(dumps({"t": tid, "i": 1, "ev": "Race", "out": "ret", "races": races}) + "\n")
+        out.write(dumps({"t": tid, "i": 2, "ev": "History", "out": "ret", "id": -1, "kind": "across-processes-started-in-opposite-order (tasks %s)" % across[:5], "same": not across}) + "\n")
     fails = ck.validate("conc", "IsolationTrace", "IsolationTrace.cfg", traces, shards=4)
     for f in fails:
         ev = next((x for x in f["trace"] if x["i"] == f["i"]), {})
